@@ -62,6 +62,22 @@ Definition chk_cei (c : cei_case) : bool :=
   fclose tv (cei_head O C means std bests mcs sc) v1 && fclose tv (k_hval g) v2 &&
   fclose_list tm (k_dmean g) dm && fclose_list ts (k_dstd g) ds &&
   fclose_list tmc (k_dmean_c g) dmc && fclose_list tsc (k_dstd_c g) dsc.
+(* roles of the predictors of a two-output head: dict order (name, predictor id), active name, implementation's
+   predictor_output_names, implementation's secondary metric, ids of the predictors it uses as (active, secondary) *)
+Definition roles_case := (list (nat * nat) * nat * list nat * nat * (nat * nat))%type.
+Definition chk_roles (c : roles_case) : bool :=
+  let '(d, a, names, s, (pa, ps)) := c in
+  list_eqb Nat.eqb (output_names d a) names &&
+  match secondary d a with Some s' => Nat.eqb s' s | None => false end &&
+  match head_roles d a with Some (qa, qs) => Nat.eqb qa pa && Nat.eqb qs ps | None => false end.
+(* mixed-resource batch predict: the argsort permutation, rows (rung level, row id), single-row means and variances
+   (by row id), the implementation's batch means and variances, tolerance *)
+Definition batch_case := (list nat * list (nat * nat) * list float * list float * list float * list float * float)%type.
+Definition chk_batch (c : batch_case) : bool :=
+  let '(ind, rows, m1, v1, mb, vb, tol) := c in
+  let sp (tab : list float) := fun (_ : nat) (l : list nat) => map (fun id => nth id tab nan) l in
+  fclose_list tol (indep_predict (sp m1) ind rows (0%nat, 0%nat) nan) mb &&
+  fclose_list tol (indep_predict (sp v1) ind rows (0%nat, 0%nat) nan) vb.
 (* HyperTune ensemble: levels (theta, mu, var) at x; per input coordinate the (theta, dmu, dvar); head gradients
    and de-normalisation (hg_mean, hg_std, mean_data, std_data); implementation's ensemble (mean, var) and its
    backward_gradient; tolerances *)
@@ -297,7 +313,12 @@ def eval_head(spec, Stub, M):
             v_rows = np.asarray(acq3.compute_acq(np.tile(x.reshape(1, -1), (1 + len(spec["extra_rows"]), 1))),
                                 dtype=float).reshape(-1)
     grads = {name: p.captured[0] for name, p in preds2.items()}
-    return dict(v1=v1, v2=float(v2), grads=grads, v_rows=v_rows)
+    roles = None
+    if spec["head"] in ("eipu", "cei"):
+        sec = acq2.cost_metric if spec["head"] == "eipu" else acq2.constraint_metric
+        roles = dict(order=list(preds2.keys()), names=list(acq2.predictor_output_names), active=acq2.active_metric,
+                     secondary=sec, used=[acq2.predictor[acq2.active_metric].active_metric, acq2.predictor[sec].active_metric])
+    return dict(v1=v1, v2=float(v2), grads=grads, v_rows=v_rows, roles=roles)
 
 
 def head_value(spec, Stub, M, **override):
@@ -338,6 +359,7 @@ def run_heads(ctx, specs):
     import syne_tune.optimizer.schedulers.searchers.bayesopt.models.meanstd_acqfunc_impl as M
     Stub = make_stub_class()
     per_head = {"ei": [], "lcb": [], "eipu": [], "cei": []}
+    roles_cases = []
     for spec in specs:
         head = spec["head"]
         try:
@@ -358,6 +380,13 @@ def run_heads(ctx, specs):
             ctx.h("predictor_dict_order", "active metric last" if spec.get("active_last") else "active metric first")
         ctx.sample(dict(spec=spec, value_alone=out["v1"], value_with_grad=out["v2"],
                         head_gradients={k: {kk: vv.tolist() for kk, vv in v.items()} for k, v in out["grads"].items()}))
+        if out.get("roles"):
+            ro = out["roles"]
+            ids = {nm: k for k, nm in enumerate(sorted(ro["order"]))}   # stub metric name = its dict key
+            roles_cases.append(("(%s, %s, %s, %s, (%s, %s))" % (
+                lst(["(%s, %s)" % (natlit(ids[k]), natlit(ids[k])) for k in ro["order"]]), natlit(ids[ro["active"]]),
+                lst([natlit(ids[k]) for k in ro["names"]]), natlit(ids[ro["secondary"]]),
+                natlit(ids[ro["used"][0]]), natlit(ids[ro["used"][1]])), dict(kind="head", spec=spec)))
         s_eff = max(spec["std"], STD_MIN)
         bests = incumbents(spec)
         means = np.asarray(spec["means"], dtype=float)
@@ -549,6 +578,11 @@ def run_heads(ctx, specs):
                 tol(gc["mean"], float(np.max(fei * pz / sc))), tol(gc["std"], s_dsc)), case))
             ctx.h("cei_columns", "feasible", int(np.sum(feas)))
             ctx.h("cei_columns", "infeasible", int(np.sum(~feas)))
+    if roles_cases:
+        for i in ctx.coq_bad_cases("roles", HEAD_IMPORTS, HEAD_PRELUDE, "chk_roles", [t for t, _ in roles_cases], shard=400):
+            ctx.violation("correspondence", "model output_names / secondary / head_roles differs from the acquisition function's "
+                          "predictor_output_names / secondary metric / predictors used", case=roles_cases[i][1], failing_input=False,
+                          broken="correspondence chk_roles (model/AcqHead.v head_roles)")
     for head, items in per_head.items():
         if not items:
             continue
@@ -1189,6 +1223,7 @@ def run_indep(ctx, specs):
     from syne_tune.optimizer.schedulers.searchers.bayesopt.gpautograd.independent.gpind_model import IndependentGPPerResourceModel
     from syne_tune.optimizer.schedulers.searchers.bayesopt.models.gp_model import GaussProcEmpiricalBayesEstimator
     levels, rrange = [1, 3, 9], (1, 9)
+    batch_cases = []
     for spec in specs:
         case = dict(kind="indep", spec=spec)
         rs = np.random.RandomState(spec["seed"])
@@ -1217,6 +1252,16 @@ def run_indep(ctx, specs):
             acq = (M.EIAcquisitionFunction(pred, jitter=spec["jitter"]) if head == "ei"
                    else M.LCBAcquisitionFunction(pred, kappa=spec["kappa"]))
             res = [int(r) for _, _, r in spec["batch"]]
+            pst = gm.states[0]
+            mb, vb = pst.predict(X.copy())
+            singles = [pst.predict(X[i:i + 1].copy()) for i in range(X.shape[0])]
+            m1 = [float(np.asarray(a).reshape(-1)[0]) for a, _ in singles]
+            v1 = [float(np.asarray(b).reshape(-1)[0]) for _, b in singles]
+            ind = [int(t) for t in np.argsort(np.array(res))]   # the permutation the implementation's argsort returns
+            batch_cases.append(("(%s, %s, %s, %s, %s, %s, %s)" % (
+                lst([natlit(t) for t in ind]), lst(["(%s, %s)" % (natlit(r), natlit(i)) for i, r in enumerate(res)]),
+                fll(m1), fll(v1), fll(np.asarray(mb).reshape(-1)), fll(np.asarray(vb).reshape(-1)),
+                fl(1e-9 * max(1.0, max(abs(t) for t in m1 + v1)))), dict(kind="indep", spec=spec)))
             ctx.count(("indep", spec), nontrivial=len(set(res)) >= 2)
             ctx.h("indep_batch_resources", "mixed, ungrouped" if res != sorted(res) and len(set(res)) >= 2 else
                   "mixed, grouped" if len(set(res)) >= 2 else "single level")
@@ -1260,6 +1305,11 @@ def run_indep(ctx, specs):
                         ctx.violation("property", "%s on independent GPs per resource (rung level %d): d acq / d x[%d] = %r but central "
                                       "differences give %r" % (head, res[i], j, float(g[j]), fd), case=case,
                                       signature=dict(sig, defect="input_gradient"))
+    if batch_cases:
+        for i in ctx.coq_bad_cases("batch", HEAD_IMPORTS, HEAD_PRELUDE, "chk_batch", [t for t, _ in batch_cases], shard=200):
+            ctx.violation("correspondence", "model indep_predict (mixed-resource batch) differs from "
+                          "IndependentGPPerResourcePosteriorState.predict", case=batch_cases[i][1], failing_input=False,
+                          broken="correspondence chk_batch (model/AcqHead.v indep_predict)")
 
 
 # --------------------------------------------------------------------------
